@@ -27,13 +27,21 @@ VARIABLES now,        \* tracker time
 vars == <<now, tracker, nextid, local, cursor, res, grown>>
 
 NoIssue == [exists |-> FALSE, upd |-> 0, events |-> <<>>, bodyv |-> <<>>, descv |-> 0]
-NoLocal == [known |-> FALSE, ids |-> {}, bodyv |-> <<>>, descv |-> 0, nedits |-> 0]
+NoLocal == [known |-> FALSE, ids |-> {}, bodyv |-> <<>>, descv |-> 0, nedits |-> 0, title0 |-> 0]
 
 Init == /\ now = 10 /\ nextid = 1 /\ cursor = 0
         /\ tracker = [i \in Issue |-> NoIssue] /\ local = [i \in Issue |-> NoLocal]
         /\ res = [kind |-> "none"] /\ grown = FALSE
 
 Ids(evs) == {evs[k].id : k \in DOMAIN evs}
+
+(* titles are named by the title event that gave them (0: the title the issue was born with).  The listing of an issue shows
+   its current title; a bug is created with it, and every recorded title event sets the title it announces: the bug carries
+   the title of the latest recorded title event, or the one it was created with *)
+MaxOf(S) == CHOOSE x \in S : \A y \in S : y <= x
+TitleIds(T) == {T.events[k].id : k \in {x \in DOMAIN T.events : T.events[x].kind = "title"}}
+LastTitle(T) == IF TitleIds(T) = {} THEN 0 ELSE MaxOf(TitleIds(T))
+CurTitle(L, T) == LET rec == TitleIds(T) \cap L.ids IN IF rec = {} THEN L.title0 ELSE MaxOf(rec)
 
 (* ---- the tracker changes; `stamp` is the tracker time of the change (now, or just before the next round) ---- *)
 NewIssue(i) ==
@@ -84,7 +92,8 @@ ImportIssueSkipping(i, skip) ==
   IN [known |-> TRUE, ids |-> L.ids \cup recorded,
       bodyv |-> IF skip = "notes" THEN L.bodyv ELSE T.bodyv,
       descv |-> IF takeDesc # {} \/ ~L.known THEN T.descv ELSE L.descv,
-      nedits |-> L.nedits + Cardinality(edited)]
+      nedits |-> L.nedits + Cardinality(edited),
+      title0 |-> IF L.known THEN L.title0 ELSE LastTitle(T)]
 
 ImportIssue(i) == ImportIssueSkipping(i, "")
 
@@ -116,6 +125,10 @@ Complete ==
      \A i \in Issue : (tracker[i].exists /\ tracker[i].upd <= now - 10) =>
         /\ local[i].known
         /\ Ids(tracker[i].events) \ local[i].ids \subseteq {tracker[i].events[k].id : k \in {x \in DOMAIN tracker[i].events : tracker[i].events[x].kind = "desc"}}
+(* ... and every bug carries the title its issue had when the round started *)
+TitleFollows ==
+  (res.kind = "round" /\ ~res.error) =>
+     \A i \in Issue : (tracker[i].exists /\ tracker[i].upd <= now - 10) => CurTitle(local[i], tracker[i]) = LastTitle(tracker[i])
 CursorRule == res.kind = "round" => (res.advanced <=> ~res.error)
 Monotone == [][\A i \in Issue : local[i].ids \subseteq local'[i].ids /\ (local[i].known => local'[i].known)]_vars
 (* a round over an unchanged tracker records nothing *)
